@@ -2,6 +2,7 @@ package main
 
 import (
 	"fmt"
+	"go/constant"
 	"go/token"
 	"go/types"
 
@@ -76,37 +77,129 @@ func ruleFilteredPreferred(c *Ctx, rule string, pk *packages.Package, min int) {
 		if filtered == nil {
 			continue
 		}
+		// what is known about n = len(filtered) where control stands: the abstract values 0, 1 and "2 or more" that
+		// the tests of n passed on the way still allow
+		type edge struct {
+			cond   ssa.Value
+			branch bool
+		}
+		allowed := func(edges []edge) [3]bool {
+			al := [3]bool{true, true, true}
+			for _, e := range edges {
+				cv, pos := condPolarity(e.cond)
+				bo, ok := cv.(*ssa.BinOp)
+				if !ok {
+					continue
+				}
+				ln, isLen := stripConv(bo.X).(*ssa.Call)
+				cst, isC := bo.Y.(*ssa.Const)
+				if !isLen || !isC || !isBuiltinCall(&ln.Call, "len") || len(ln.Call.Args) != 1 || stripConv(ln.Call.Args[0]) != ssa.Value(filtered) || cst.Value == nil {
+					continue
+				}
+				cv64, exact := constant.Int64Val(cst.Value)
+				if !exact || cv64 < 0 || cv64 > 2 {
+					continue
+				}
+				holds := e.branch == pos
+				for v := 0; v < 3; v++ {
+					// does abstract value v (2 = two or more) satisfy `n op c`? "maybe" keeps it
+					var sat, unsat bool
+					test := func(n int64) bool {
+						switch bo.Op {
+						case token.EQL:
+							return n == cv64
+						case token.NEQ:
+							return n != cv64
+						case token.GTR:
+							return n > cv64
+						case token.GEQ:
+							return n >= cv64
+						case token.LSS:
+							return n < cv64
+						case token.LEQ:
+							return n <= cv64
+						}
+						return true
+					}
+					samples := []int64{int64(v)}
+					if v == 2 {
+						samples = []int64{2, 3, 1000}
+					}
+					for _, n := range samples {
+						if test(n) {
+							sat = true
+						} else {
+							unsat = true
+						}
+					}
+					if holds && !sat {
+						al[v] = false
+					}
+					if !holds && !unsat {
+						al[v] = false
+					}
+				}
+			}
+			return al
+		}
+		guardsOf := func(b *ssa.BasicBlock) []edge {
+			var out []edge
+			for _, ge := range guardingEdges(b) {
+				out = append(out, edge{ge.If.Cond, ge.Branch})
+			}
+			return out
+		}
+		// the contexts in which a value is the unnarrowed parameter: directly, or through the φ of a local that is
+		// assigned either list (`candidates := all; if len(targets) > 1 { candidates = targets }`)
+		var rawContexts func(v ssa.Value, at *ssa.BasicBlock, seen map[ssa.Value]bool) [][]edge
+		rawContexts = func(v ssa.Value, at *ssa.BasicBlock, seen map[ssa.Value]bool) [][]edge {
+			v = stripConv(v)
+			if seen[v] {
+				return nil
+			}
+			seen[v] = true
+			switch t := v.(type) {
+			case *ssa.Parameter:
+				if t == raw {
+					return [][]edge{guardsOf(at)}
+				}
+			case *ssa.Phi:
+				var out [][]edge
+				for i, e := range t.Edges {
+					pred := t.Block().Preds[i]
+					for _, ctx := range rawContexts(e, pred, seen) {
+						if fi := ifOf(pred); fi != nil && len(pred.Succs) == 2 && pred.Succs[0] != pred.Succs[1] {
+							ctx = append(append([]edge(nil), ctx...), edge{fi.Cond, pred.Succs[0] == t.Block()})
+						}
+						out = append(out, ctx)
+					}
+				}
+				return out
+			}
+			return nil
+		}
 		k := 0
 		for _, call := range callsIn(sf) {
 			callee := call.Call.StaticCallee()
 			if callee == nil || callee.Pkg == nil || callee.Pkg.Pkg != pk.Types || call.Instr == ssa.Instruction(filtered) {
 				continue
 			}
-			passesRaw := false
+			var contexts [][]edge
 			for _, a := range call.Call.Args {
-				if stripConv(a) == ssa.Value(raw) {
-					passesRaw = true
+				for _, ctx := range rawContexts(a, call.Instr.Block(), map[ssa.Value]bool{}) {
+					// the tests passed on the way to the call itself count as well
+					contexts = append(contexts, append(append([]edge(nil), ctx...), guardsOf(call.Instr.Block())...))
 				}
 			}
-			if !passesRaw {
+			if len(contexts) == 0 {
 				continue
 			}
 			k++
-			onEmpty := false
-			for _, ge := range guardingEdges(call.Instr.Block()) {
-				cv, pos := condPolarity(ge.If.Cond)
-				bo, ok := cv.(*ssa.BinOp)
-				if !ok {
-					continue
-				}
-				ln, isLen := stripConv(bo.X).(*ssa.Call)
-				zero, isC := bo.Y.(*ssa.Const)
-				if !isLen || !isC || !isBuiltinCall(&ln.Call, "len") || len(ln.Call.Args) != 1 || stripConv(ln.Call.Args[0]) != ssa.Value(filtered) || zero.Value == nil || zero.Value.ExactString() != "0" {
-					continue
-				}
-				holds := ge.Branch == pos
-				if (bo.Op == token.EQL && holds) || ((bo.Op == token.NEQ || bo.Op == token.GTR) && !holds) {
-					onEmpty = true
+			onEmpty := true
+			for _, ctx := range contexts {
+				al := allowed(ctx)
+				if al[1] || al[2] {
+					onEmpty = false
 				}
 			}
 			c.Ob(rule, fmt.Sprintf("%s->%s#%d", ssaFuncName(sf), callee.Name(), k), call.Pos(), onEmpty, true, "the unfiltered %s is handed to %s only where the list filtered by IsTarget is empty: %v", raw.Name(), callee.Name(), onEmpty)
